@@ -116,6 +116,12 @@ type Fin struct {
 	Batch     int      `json:"batch,omitempty"`      // create_oc_slice: CreateInBatches(&slice, n); 0 = Create(&slice)
 	Omits     []string `json:"omits,omitempty"`      // save_omit: Omit(cols...).Save(&v), columns in either spelling
 	OmitSpell string   `json:"omit_spell,omitempty"` // db | field
+	// create_maps: Model(&Acct{}).Clauses(OnConflict{...}).Create(value), value built from Maps:
+	// MapShape map (map[string]interface{}) | pmap (*map) | slice ([]map) | pslice (*[]map); the keys in column
+	// or field-name spelling
+	Maps     [][]KV `json:"maps,omitempty"`
+	MapShape string `json:"map_shape,omitempty"`
+	MapSpell string `json:"map_spell,omitempty"`
 }
 type Input struct {
 	Tbl      []Rec `json:"tbl"`
@@ -517,7 +523,7 @@ func run(e *env, in Input) Obs {
 		if len(sl) > 0 {
 			dest = sl[len(sl)-1]
 		}
-	case "create_oc", "create_u", "create_oc_slice":
+	case "create_oc", "create_u", "create_oc_slice", "create_maps":
 		if in.Fin.Val != nil {
 			dest = toAcct(*in.Fin.Val)
 		}
@@ -542,7 +548,24 @@ func run(e *env, in Input) Obs {
 		if in.Fin.OCTarget != nil {
 			oc.TargetWhere = ageLt(*in.Fin.OCTarget)
 		}
-		if in.Fin.Kind == "create_oc_slice" {
+		if in.Fin.Kind == "create_maps" {
+			ms := make([]map[string]interface{}, len(in.Fin.Maps))
+			for i, kv := range in.Fin.Maps {
+				ms[i] = kvMap(kv, in.Fin.MapSpell)
+			}
+			mtx := tx.Model(&Acct{}).Clauses(oc)
+			switch in.Fin.MapShape {
+			case "map":
+				res = mtx.Create(ms[0])
+			case "pmap":
+				res = mtx.Create(&ms[0])
+			case "slice":
+				res = mtx.Create(ms)
+			default:
+				res = mtx.Create(&ms)
+			}
+			dest = Acct{}
+		} else if in.Fin.Kind == "create_oc_slice" {
 			sl := make([]Acct, len(in.Fin.Vals))
 			for i, v := range in.Fin.Vals {
 				sl[i] = toAcct(v)
@@ -683,7 +706,7 @@ func gFin(f Fin) string {
 		return lib.App("FSaveSlice", lib.ListOf(f.Vals, gRec))
 	case "save_omit":
 		return lib.App("FSaveOmit", lib.ListOf(f.Omits, func(c string) string { return gColName[c] }), gRec(*f.Val))
-	case "create_oc", "create_u", "create_oc_slice":
+	case "create_oc", "create_u", "create_oc_slice", "create_maps":
 		rule := "RNothing"
 		switch f.Rule {
 		case "updates":
@@ -699,6 +722,9 @@ func gFin(f Fin) string {
 		}
 		if f.Kind == "create_u" {
 			return lib.App("FCreateU", rule, lib.Bool(f.Target), gRec(*f.Val))
+		}
+		if f.Kind == "create_maps" {
+			return lib.App("FCreateMaps", rule, lib.ListOf(f.Maps, func(kv []KV) string { return lib.ListOf(kv, gKV) }))
 		}
 		if f.Kind == "create_oc_slice" {
 			return lib.App("FCreateOCSlice", rule, lib.Z(int64(f.Batch)), lib.ListOf(f.Vals, gRec))
@@ -738,8 +764,22 @@ func sessionAfterAttrs(in Input) bool {
 	return false
 }
 
-// sig: no known finding is open for C16.
-func sig(in Input) string { return "" }
+// sig: the known-finding signature of an input (computed from the input alone).
+// update-all-nothing-where: Create from map values that name no column UpdateAll could set (only the key and/or
+// created_at) under OnConflict{UpdateAll: true, Where: ...}: the rule degenerates to DO NOTHING but keeps its WHERE.
+func sig(in Input) string {
+	if in.Fin.Kind == "create_maps" && in.Fin.Rule == "all" && in.Fin.OCWhere != nil {
+		for _, kv := range in.Fin.Maps {
+			for _, p := range kv {
+				if p.Col != "id" && p.Col != "created_at" {
+					return ""
+				}
+			}
+		}
+		return "update-all-nothing-where"
+	}
+	return ""
+}
 
 // ---- generation ------------------------------------------------------------------------------
 
@@ -1085,6 +1125,58 @@ func genStep(r *lib.Rng, state []Rec, now int64, edge, known bool) Input {
 			if r.Bool() {
 				f.Batch = r.Range(1, 3)
 			}
+		} else if r.Chance(2, 5) {
+			// the rule on MAP values: Model(&Acct{}).Create(map | *map | []map | *[]map); every map names its own
+			// subset of the columns (key, data columns, tracked times, deleted_at)
+			f.MapShape = lib.Pick(r, []string{"map", "pmap", "slice", "pslice"})
+			f.MapSpell = lib.Pick(r, []string{"db", "db", "field"})
+			vals := []Rec{v}
+			if f.MapShape == "slice" || f.MapShape == "pslice" {
+				used := map[int64]bool{v.ID: true}
+				for i, n := 1, r.Range(1, 3); i < n; i++ {
+					w := genValue(r, state, edge)
+					if r.Chance(1, 3) || used[w.ID] {
+						w.ID = 0
+					}
+					used[w.ID] = true
+					vals = append(vals, w)
+				}
+				fixSelfClash(state, vals)
+			}
+			if f.MapShape == "slice" {
+				in.NoReturn = true // a slice of maps BY VALUE cannot take the RETURNING rows (gorm.Scan fails on it)
+			}
+			for _, w := range vals {
+				var kv []KV
+				if w.ID != 0 {
+					kv = append(kv, KV{"id", vI(w.ID)})
+				}
+				if r.Chance(2, 3) {
+					kv = append(kv, KV{"name", vS(w.Name)})
+				}
+				if r.Chance(1, 2) {
+					kv = append(kv, KV{"age", vI(w.Age)})
+				}
+				if r.Chance(1, 2) {
+					kv = append(kv, KV{"email", vS(w.Email)})
+				}
+				if r.Chance(1, 6) {
+					kv = append(kv, KV{"updated_at", vI(int64(1 + r.Intn(5)))})
+				}
+				if r.Chance(1, 8) {
+					kv = append(kv, KV{"created_at", vI(int64(1 + r.Intn(5)))})
+				}
+				if r.Chance(1, 10) {
+					kv = append(kv, KV{"deleted_at", vI(int64(6 + r.Intn(3)))})
+				}
+				if len(kv) == 0 || (len(kv) == 1 && w.ID != 0 && r.Chance(2, 3)) {
+					// a map naming nothing but its key makes UpdateAll a DO NOTHING (kept, rarely)
+					kv = append(kv, KV{"name", vS(w.Name)})
+				}
+				lib.Shuffle(r, kv)
+				f.Maps = append(f.Maps, kv)
+			}
+			f.Kind, f.Val = "create_maps", nil
 		}
 		in.Fin = f
 	default:
@@ -1171,6 +1263,14 @@ func genStep(r *lib.Rng, state []Rec, now int64, edge, known bool) Input {
 		}
 		el := sessionEl(r)
 		in.Chain = append(in.Chain[:pos], append([]Cel{el}, in.Chain[pos:]...)...)
+	}
+	if in.Fin.MapShape == "pslice" {
+		// Session{CreateBatchSize} turns Create(&[]map) into CreateInBatches, which hands sub-slices BY VALUE on
+		for _, c := range in.Chain {
+			if c.Kind == "session" && c.Opt == "batch_size" {
+				in.NoReturn = true
+			}
+		}
 	}
 	return in
 }
@@ -1290,9 +1390,23 @@ func findRow(t []Rec, id int64) *Rec {
 	return nil
 }
 
+// mapID: the key a map value names (0: none)
+func mapID(kv []KV) int64 {
+	for _, p := range kv {
+		if p.Col == "id" {
+			return p.Val.I
+		}
+	}
+	return 0
+}
+
 func slicePattern(in Input) string {
 	var sb strings.Builder
-	for _, v := range in.Fin.Vals {
+	vals := in.Fin.Vals
+	for _, kv := range in.Fin.Maps {
+		vals = append(vals, Rec{ID: mapID(kv)})
+	}
+	for _, v := range vals {
 		switch row := findRow(in.Tbl, v.ID); {
 		case v.ID == 0:
 			sb.WriteString("z")
@@ -1351,6 +1465,23 @@ func shape(in Input, o Obs) string {
 	}
 	if in.Fin.Kind == "create_oc_slice" {
 		fmt.Fprintf(&sb, ":%s%v b%d %s", in.Fin.Rule, in.Fin.Target, in.Fin.Batch, slicePattern(in))
+	}
+	if in.Fin.Kind == "create_maps" {
+		fmt.Fprintf(&sb, ":%s%v %s %s %s", in.Fin.Rule, in.Fin.Target, in.Fin.MapShape, in.Fin.MapSpell, slicePattern(in))
+		for _, kv := range in.Fin.Maps {
+			var ks []string
+			for _, p := range kv {
+				ks = append(ks, p.Col[:1])
+			}
+			sort.Strings(ks)
+			sb.WriteString(" " + strings.Join(ks, ""))
+		}
+		if in.Fin.OCWhere != nil {
+			sb.WriteString("+where")
+		}
+		if in.Fin.OCTarget != nil {
+			sb.WriteString("+target")
+		}
 	}
 	if in.Fin.Kind == "create_oc" || in.Fin.Kind == "create_u" {
 		sb.WriteString(":" + in.Fin.Rule + fmt.Sprint(in.Fin.Target) + in.Fin.Val.Email)
@@ -1415,6 +1546,8 @@ func nontrivial(in Input, o Obs) bool {
 	case "save_slice", "create_oc_slice":
 		p := slicePattern(in)
 		return strings.Contains(p, "z") && strings.ContainsAny(p, "sfd")
+	case "create_maps":
+		return strings.ContainsAny(slicePattern(in), "sd")
 	}
 	hasA := false
 	conds := len(in.Fin.Inline)
@@ -1460,6 +1593,9 @@ func main() {
 			for _, v := range in.Fin.Vals {
 				out.Count("composite_collision", in.Fin.Kind+":"+compositeCollision(in, v))
 			}
+		}
+		if in.Fin.Kind == "create_maps" {
+			out.Count("create_from_maps(shape rule: s=stored key,d=soft-deleted,f=fresh key,z=no key)", in.Fin.MapShape+" "+in.Fin.Rule+": "+slicePattern(in))
 		}
 		if in.Fin.Kind == "save_slice" {
 			out.Count("slice_pattern(s=stored key,d=soft-deleted,f=fresh key,z=zero key)", slicePattern(in))
